@@ -539,19 +539,33 @@ func buildReact(r *lib.Rng, z *zoo) (*object, error) {
 		return nil, err
 	}
 	sharedA := sharedAgentOpts()
+	// one input object per script, handed as it is to every call made with optSharedInput: a slice
+	// with spare capacity holding one message object
+	sharedIns := make([][]*schema.Message, len(reactScripts))
+	for i := range sharedIns {
+		sharedIns[i] = spare([]*schema.Message{schema.UserMessage("<shared> " + reactScripts[i])})
+	}
 	return &object{
-		desc: d, roots: []any{ag, sharedA}, proj: ag,
+		desc: d, roots: []any{ag, sharedA, sharedIns}, proj: ag,
 		mcall: func(sp spec, si int) string {
-			return callTerm(vMsgs(msgT("user", selfTag+" "+reactScripts[sp.In%len(reactScripts)])),
+			who := selfTag
+			if sp.Opt&optSharedInput != 0 {
+				who = "<shared>"
+			}
+			return callTerm(vMsgs(msgT("user", who+" "+reactScripts[sp.In%len(reactScripts)])),
 				mAgentOpts(si, sp.Opt&^optMaxSteps), 0, sp.Opt&optMaxSteps != 0)
 		},
 		kind: "react", shape: shape,
 		nIn: len(reactScripts), paras: []string{"invoke", "stream"},
 		optSet:  []int{0, optLambdaDesignated, optLambdaGlobal, optCbGlobal, optCbThree, optLambdaDesignated | optLambdaGlobal | optCbGlobal, optCtxHandlers, optShared, optShared | optLambdaDesignated | optCbGlobal,
-			optMaxSteps, optMaxSteps | optCbGlobal | optLambdaGlobal, optMaxSteps | optShared},
+			optMaxSteps, optMaxSteps | optCbGlobal | optLambdaGlobal, optMaxSteps | optShared,
+			optSharedInput, optSharedInput | optLambdaDesignated | optCbGlobal, optSharedInput | optShared, optSharedInput | optMaxSteps},
 		baseCtx: sharedCtx,
 		call: func(ctx context.Context, rc *callRec, sp spec) string {
 			in := []*schema.Message{schema.UserMessage(rc.tag + " " + reactScripts[sp.In%len(reactScripts)])}
+			if sp.Opt&optSharedInput != 0 {
+				in = sharedIns[sp.In%len(reactScripts)]
+			}
 			opts := withShared(sp.Opt, sharedA, agentOpts(rc, sp.Opt&^optMaxSteps))
 			if sp.Opt&optMaxSteps != 0 { // this bit means "with a message future" for the agent
 				return futureCall(ctx, ag, sp.Para != "invoke", in, opts)
@@ -713,19 +727,32 @@ func buildHost(r *lib.Rng, z *zoo) (*object, error) {
 		d.edge(k, compose.END)
 	}
 	d.defaultMax()
+	// one input object per script for the calls made with optSharedInput (see buildReact)
+	sharedIns := make([][]*schema.Message, len(hostScripts))
+	for i := range sharedIns {
+		sharedIns[i] = spare([]*schema.Message{schema.UserMessage("<shared> " + hostScripts[i])})
+	}
 	return &object{
-		desc: d, depth: 2, roots: []any{ma, sharedA}, proj: ma,
+		desc: d, depth: 2, roots: []any{ma, sharedA, sharedIns}, proj: ma,
 		mcall: func(sp spec, si int) string {
-			return callTerm(vMsgs(msgT("user", selfTag+" "+hostScripts[sp.In%len(hostScripts)])),
+			who := selfTag
+			if sp.Opt&optSharedInput != 0 {
+				who = "<shared>"
+			}
+			return callTerm(vMsgs(msgT("user", who+" "+hostScripts[sp.In%len(hostScripts)])),
 				mAgentOpts(si, sp.Opt&^optMaxSteps), 0)
 		},
 		kind: "host", shape: shape,
 		nIn: len(hostScripts), paras: []string{"invoke", "stream"},
 		// optMaxSteps bit is reused here for "with hand-off callbacks"
-		optSet:  []int{0, optMaxSteps, optLambdaDesignated, optCbGlobal, optMaxSteps | optCbGlobal | optLambdaDesignated, optCtxHandlers | optMaxSteps, optShared, optShared | optMaxSteps | optLambdaDesignated, optCbThree | optMaxSteps, optShared | optMaxSteps},
+		optSet:  []int{0, optMaxSteps, optLambdaDesignated, optCbGlobal, optMaxSteps | optCbGlobal | optLambdaDesignated, optCtxHandlers | optMaxSteps, optShared, optShared | optMaxSteps | optLambdaDesignated, optCbThree | optMaxSteps, optShared | optMaxSteps,
+			optSharedInput, optSharedInput | optMaxSteps | optLambdaDesignated, optSharedInput | optShared},
 		baseCtx: sharedCtx,
 		call: func(ctx context.Context, rc *callRec, sp spec) string {
 			in := []*schema.Message{schema.UserMessage(rc.tag + " " + hostScripts[sp.In%len(hostScripts)])}
+			if sp.Opt&optSharedInput != 0 {
+				in = sharedIns[sp.In%len(hostScripts)]
+			}
 			opts := agentOpts(rc, sp.Opt&^optMaxSteps)
 			if sp.Opt&optMaxSteps != 0 {
 				opts = append(opts, host.WithAgentCallbacks(&handOff{owner: rc}))
